@@ -686,3 +686,17 @@ Definition lookup_agree (a b : option pyval) : Prop :=
   end.
 (* the lossy alternative: tuple(size_dict.values()) *)
 Definition values_of_items (items : list pyval) : pyval := PTuple (map item_val items).
+
+(* ------------------------------------------------------------------ *)
+(* the gate can_hash_optimize: the classes of `optimize` for which the caches are used.  An accepted
+   class must enter the key BY VALUE (an immutable snapshot): str and tuple are immutable, a list is
+   accepted only because hash_prepare_optimize converts it to a tuple; every other class (an object
+   keyed by identity, e.g. a ContractionTree or an optimizer, can be modified in place after it was
+   used as a key) is refused. *)
+Definition list_is_snapshotted (prep : chain) : bool :=
+  existsb (fun th => ctest_eqb (fst th) (TIsInstance ["list"%string]) && String.eqb (snd th) "tuple") prep.
+Definition gate_class_is_value (prep : chain) (cls : string) : bool :=
+  if String.eqb cls "str" then true
+  else if String.eqb cls "tuple" then true
+  else if String.eqb cls "list" then list_is_snapshotted prep
+  else false.
